@@ -6,6 +6,7 @@ package zzverifw
 // arbitrary argument shapes; and property lookup / printing on every built-in object.
 
 import (
+	"bytes"
 	"fmt"
 	"github.com/Syuparn/pangaea/runscript"
 	"sort"
@@ -85,7 +86,16 @@ var c01Consumers = []string{"r.S", "r.repr", "r == r", "[*r]", "{**r}", "%{**r}"
 // the concrete shapes (solver choice).  For the indexing built-ins (indexer) the first
 // choices are the index forms with symbolic payloads: [i], [(a:b:c)] and (a:b:c) with i any
 // int64 and each range bound nil or any int64.
+// c01Boundary: the reduced shape set used for EVERY built-in with two arguments in the quick
+// tier (empty and smallest values of each kind, boundary ints and floats)
+var c01BoundaryMode bool
+
+var c01Boundary = []string{`nil`, `""`, `"añb"`, `[]`, `[1, nil]`, `{}`, `%{}`, `(1:3)`, `{|x| x}`, `0`, `-1`, `7`, `-9223372036854775807 - 1`, `0.0`, `"NaN".F`, `true`}
+
 func c01Arg(h *H, symbolic, indexer bool) object.PanObject {
+	if c01BoundaryMode {
+		return h.Eval(c01Boundary[rt.Choice(len(c01Boundary))])
+	}
 	extra := 0
 	if indexer {
 		extra = 3
@@ -125,7 +135,11 @@ func c01Arg(h *H, symbolic, indexer bool) object.PanObject {
 // H_C01_builtin: shard Param(0) of Param(1) of the built-in list; arity Param(2).
 func H_C01_builtin() {
 	h := NewH()
+	// standard input is empty (already exhausted), output is discarded: the built-ins that read
+	// or print run instead of ending in NameErr
+	h.Env.InjectIO(strings.NewReader(""), &bytes.Buffer{})
 	fs := c01Builtins()
+	c01BoundaryMode = rt.Param(3) == 3
 	if rt.Param(3) == 2 {
 		// the indexing built-ins (a[i], a[r], s[r], n[r], r[r], o['k], m[k]): all of them in every
 		// tier (they are what `recv[index]` calls with user-written index values)
@@ -181,11 +195,14 @@ func H_C01_repl() {
 		return
 	}
 	l1 := pool[lo+rt.Choice(hi-lo)]
-	seconds := []string{"1 + 1", "", "(", "multi", "single", "Multi", "x := 1"}
+	seconds := []string{"1 + 1", "", "(", "multi", "single", "Multi", "x := 1", "<>.S", "<>.p"}
 	l2 := seconds[rt.Choice(len(seconds))]
-	rt.Note(fmt.Sprintf("%q / %q / \"1 + 1\"", l1, l2))
+	// the last line may read standard input after it is exhausted
+	thirds := []string{"1 + 1", "<>.S", "<>.p", "\"x#{<>}y\".p", "<>.uc.p", "<>@{|l| l.S}.p"}
+	l3 := thirds[rt.Choice(len(thirds))]
+	rt.Note(fmt.Sprintf("%q / %q / %q", l1, l2, l3))
 	var out string
-	pm := rt.Panics(func() { out = runscript.VH_C01_repl([]string{l1, l2, "1 + 1"}) })
+	pm := rt.Panics(func() { out = runscript.VH_C01_repl([]string{l1, l2, l3}) })
 	rt.Assert(pm == "", "a REPL line must not abort the interpreter, whatever is typed")
 	if pm == "" {
 		rt.Assert(strings.Contains(out, "Pangaea"), "the REPL session runs and prints its banner")
